@@ -317,6 +317,9 @@ def adjust_intervals(
             keep &= intervals[:, 1] > t_min
         if t_max is not None:
             keep &= intervals[:, 0] < t_max
+        # Never drop malformed (non-positive duration) intervals here,
+        # so that they are still reported by validate_intervals
+        keep |= intervals[:, 1] <= intervals[:, 0]
         if not keep.all():
             intervals = intervals[keep]
             if labels is not None:
